@@ -69,6 +69,16 @@ def mutate(tree, rng):
     nodes = subtrees(tree)
     node, depth = rng.choice(nodes)
     op = rng.choice(["replace", "replace", "remove", "append", "append", "clear", "rename", "swap", "nested-append", "token-edit"])
+    if op == "token-edit" and rng.random() < 0.3:
+        # the label of a node is an object as well (a Token('RULE', name) for rules without alias)
+        labelled = [(nd, d) for nd, d in nodes if isinstance(nd.data, Token)]
+        if labelled:
+            nd, d = rng.choice(labelled)
+            if rng.random() < 0.5:
+                nd.data.value = "edited"
+            else:
+                nd.data.type = "EDITED"
+            return "label-edit", d
     if op == "token-edit":
         # the leaves are objects with writable attributes, too: .value / .type are what ahbicht reads
         tokens = [(nd, i, d) for nd, d in nodes for i, c in enumerate(nd.children) if isinstance(c, Token)]
